@@ -5,6 +5,7 @@ P=$(realpath "$1"); ID=$2; TIER=${3:-quick}
 WT=$(mktemp -d /tmp/mut.XXXXXX)
 git -C /repo worktree add -q --detach "$WT" HEAD
 trap 'git -C /repo worktree remove --force "$WT" >/dev/null 2>&1; rm -rf "$WT.out"' EXIT
+if [ -f "$(dirname "$P")/patch_head.diff" ] && ! git -C "$WT" apply --check "$P" 2>/dev/null; then P="$(dirname "$P")/patch_head.diff"; fi
 git -C "$WT" apply "$P"
 mkdir -p "$WT.out"
 cd /verif
